@@ -64,6 +64,15 @@ func (e *Exec) callBuiltin(caller *frame, fn *ssa.Builtin, args []Value) Value {
 			return dst
 		case []Value:
 			for _, v := range src {
+				if len(dst) < cap(dst) {
+					// appending within capacity writes into the existing backing array:
+					// that is a store to a cell that may belong to somebody else
+					cell := &dst[: len(dst)+1 : len(dst)+1][len(dst)]
+					e.noteStore(cell, v)
+					if e.ts != nil {
+						e.memAccess(cell, true, "append")
+					}
+				}
 				dst = append(dst, copyVal(v))
 			}
 			if dst == nil && src != nil {
